@@ -275,7 +275,7 @@ func (d *driver) browse(st *Step) {
 			}
 			d.doAuthz(st.B, lg)
 			next = Step{Op: "check", B: st.B, F: f.Name, Kind: "callback", Cookie: "jar", St: "jar", Code: "jar", Ans: st.Ans}
-		case u.Host == appHost || u.Host == appHost+":443":
+		case u.Host == appHost || u.Host == appHost+":443" || u.Host == appHost+":8443":
 			// back to the application: must be one of the pool URLs (under the scheme and authority the browser used) to be followed faithfully
 			idx := -1
 			sch, hst := envelopeAuthority(d.env.spec.Env, "app")
